@@ -194,7 +194,7 @@ theorem intAfter_inst (P : Prims) (f : Flags) (d : V) :
   split
   · repeat' (first | with_reducible exact intFinish_inst _ _ _ _ | ret_step)
   · split
-    · rename_i h; exact Ret.ok h        -- `isinstance(data, t)`: the argument itself
+    · rename_i h; exact Ret.ok (intOfInst_inst _ h)        -- `isinstance(data, t)`: `t(data)` (fix C12-int-from-sequence-keeps-bool)
     · exact intFinish_inst _ _ _ _
 
 theorem conv_to_integer_isinstance (P : Prims) (E : Env) (f : Flags) (v : V) :
